@@ -5,11 +5,12 @@ enum { P_INTERNAL = 0, P_CALENDAR, P_KEY, P_PUBFILE, P_USERPUB, P_GENERAL, P_NPO
 static const char *PNAME[P_NPOL] = {"internal", "calendar", "key", "pubfile", "userpub", "general"};
 
 /* signature variants: 0 two chains, first level correction 3; 1 lc 0; 2 lc 1; 3 lc 7; 4 single link lc 254; 5 legacy RFC3161 form (lc 0);
- * 6 legacy RFC3161 form whose first link carries level correction 2 (level must still be 0) */
-#define NSIGV 7
+ * 6 legacy RFC3161 form whose first link carries level correction 2 (level must still be 0);
+ * 7 legacy RFC3161 form whose record input hash (the document) is SHA-512 while the record's output / first chain input is SHA-256 */
+#define NSIGV 8
 static void make_sig(rsig *s, int variant, int form, const rk_cert *signer) {
 	rs_params p;
-	static const unsigned LC[] = {3, 0, 1, 7, 254, 0, 2};
+	static const unsigned LC[] = {3, 0, 1, 7, 254, 0, 2, 0};
 	rs_default_params(&p);
 	if (variant == 4) { p.nchains = 1; p.nlinks[0] = 1; p.link_desc[0][0] = 1u | (LC[4] << 3); }
 	else {
@@ -18,6 +19,10 @@ static void make_sig(rsig *s, int variant, int form, const rk_cert *signer) {
 	}
 	p.aggr_time = FX_T0; p.pub_time = FX_P0; p.tail = form; p.with_rfc3161 = variant >= 5;
 	rs_build(s, &p);
+	if (variant == 7) {
+		s->rfc.input_len = ref_fake_imprint(RH_SHA512, 77, s->rfc.input);
+		if (rs_fix(s, RS_FIX_RFC | RS_FIX_INPUTS | RS_FIX_CAL_IN | RS_FIX_TAIL) != 0) vf_harness_error("fixture: legacy signature with a SHA-512 document");
+	}
 	if (form == 3 && signer) rk_sign_auth_record(s, signer);
 }
 
@@ -163,7 +168,7 @@ static void run(void) {
 	int pol, variant;
 	for (pol = 0; pol < P_NPOL; pol++) for (variant = 0; variant < NSIGV; variant++) {
 		int part;
-		if (!VF_THOROUGH && !(variant == 0 || variant == 5 || (variant == 6 && (pol == P_INTERNAL || pol == P_GENERAL)) || (variant == 4 && pol == P_INTERNAL) || (variant == 2 && pol == P_KEY))) continue;
+		if (!VF_THOROUGH && !(variant == 0 || variant == 5 || ((variant == 6 || variant == 7) && (pol == P_INTERNAL || pol == P_GENERAL)) || (variant == 4 && pol == P_INTERNAL) || (variant == 2 && pol == P_KEY))) continue;
 		for (part = 0; part < 3; part++) {
 			world_t w;
 			const unsigned char *dh;
@@ -188,8 +193,11 @@ static void run(void) {
 				/* same digest bytes under another algorithm of equal length, and other lengths */
 				memcpy(x, dh, dl); x[0] = RH_SHA3_256; verify_all(&w, x, dl, 2, 0, "same digest as SHA3-256", 1);
 				memcpy(x, dh, dl); x[0] = RH_SM3; verify_all(&w, x, dl, 2, 0, "same digest as SM3", 1);
-				{ size_t l = ref_fake_imprint(RH_SHA512, 1, x); memcpy(x + 1, dh + 1, dl - 1); verify_all(&w, x, l, 2, 0, "SHA-512 with the digest as prefix", 1); }
+				if (dh[0] != RH_SHA512) { size_t l = ref_fake_imprint(RH_SHA512, 1, x); memcpy(x + 1, dh + 1, dl - 1); verify_all(&w, x, l, 2, 0, "SHA-512 with the digest as prefix", 1); }
 				{ size_t l = ref_fake_imprint(RH_SHA1, 1, x); memcpy(x + 1, dh + 1, 20); verify_all(&w, x, l, 2, 0, "SHA-1 with the digest prefix", 1); }
+				if (dh[0] != RH_SHA256) { size_t l = ref_fake_imprint(RH_SHA256, 1, x); memcpy(x + 1, dh + 1, 32); verify_all(&w, x, l, 2, 0, "SHA-256 with the digest prefix", 1); }
+				if (w.model.has_rfc && w.model.ch[0].input_len == dl && w.model.ch[0].input[0] == dh[0]) { verify_all(&w, w.model.ch[0].input, dl, 1, 0, "the legacy record's output hash", 1); }
+				else if (w.model.has_rfc) { verify_all(&w, w.model.ch[0].input, w.model.ch[0].input_len, 2, 0, "the legacy record's output hash (other algorithm)", 1); }
 				vf_sample("%s policy, signature variant %d: equal hash, 256 single-bit flips, 4 other-algorithm hashes", PNAME[pol], variant);
 			} else {
 				static const uint64_t BIG[] = {0x7fffffffULL, 0x80000000ULL, 0xffffffffULL, 0x100000000ULL, 0x100000001ULL, 0x8000000000000000ULL, 0xffffffffffffffffULL};
